@@ -184,6 +184,12 @@ def _(self: Obj['rbql_csv.CSVWriter'], stream: Obj['io.OutStream'], close_stream
       colorize_output: Bool):
     requires(is_none(encoding) or opt_val(encoding) == 'utf-8' or opt_val(encoding) == 'latin-1', 'known_encoding')
     requires(not colorize_output, 'colours_off')
+    # interface typestate of a new writer (ghost): nothing offered, refused or finished, no header announced
+    ghost_update(self.offered, empty(RecV))
+    ghost_update(self.refused, False)
+    ghost_update(self.finished, False)
+    ghost_update(self.sorted_iface, False)
+    ghost_update(self.header_calls, 0)
     # the five output dialects: which preprocessing and which join each one selects
     ensures(csvw_config(self) and self.delim == delim and self.line_separator == line_separator and self.close_stream_on_finish == close_stream_on_finish, 'configured')
     ensures(self.check_separators_after_join == (policy == 'simple' or policy == 'whitespace'), 'separator_check_for_unquoted_dialects')
@@ -197,7 +203,7 @@ def _(self: Obj['rbql_csv.CSVWriter'], stream: Obj['io.OutStream'], close_stream
     ensures(self.sub_array_delim == ('|' if delim != '|' else ';'), 'sub_array_delimiter')
     raises('RuntimeError', policy != 'simple' and policy != 'whitespace' and policy != 'quoted' and policy != 'quoted_rfc' and policy != 'monocolumn', 'unknown_policy')
     raises('AssertionError', False, 'known_encoding')
-    modifies(self, anything())
+    modifies(self, fresh_only())
 
 
 @contract('rbql_csv.CSVWriter.set_header', name='C07.csvwriter.set_header', props=['C07', 'C10', 'C15'], store_policy='writer')
